@@ -3,8 +3,11 @@
    ARBITRARY; the call after that reports a short read (InputFileError), as the real function does on a truncated file (that
    behaviour of the real function is the obligation record_reader). Every prefix of every file - valid or not - whose first
    records have these kinds is thereby covered. */
+#ifndef SCRIPT_DTYPE
+#define SCRIPT_DTYPE(digit) nd_u8()      /* data-type byte: arbitrary unless the harness fixes it */
+#endif
 static int script_pos, script_calls;
-static const int P10[8] = {1, 10, 100, 1000, 10000, 100000, 1000000, 10000000};
+static const int P10[10] = {1, 10, 100, 1000, 10000, 100000, 1000000, 10000000, 100000000, 1000000000};
 static int script_len(void) { int n = 0; for (int s = SCRIPT; s > 0; s /= 10) n++; return n; }
 #ifndef REAL
 uint32_t _ZN5gdstk17gdsii_read_recordEP8_IO_FILEPhRm(VF* in, uint8_t* buffer, uint64_t* buffer_count) {
@@ -13,7 +16,7 @@ uint32_t _ZN5gdstk17gdsii_read_recordEP8_IO_FILEPhRm(VF* in, uint8_t* buffer, ui
   if (script_pos >= K) { *buffer_count = (uint64_t)nd_range(0, 3); return 12; /* InputFileError: end of file reached unexpectedly */ }
   int digit = (SCRIPT / P10[K - 1 - script_pos]) % 10; script_pos++;
   uint32_t len = 4 + (uint32_t)PAYLEN[digit];
-  *(uint16_t*)buffer = (uint16_t)len; buffer[2] = KINDS[digit]; buffer[3] = nd_u8();
+  *(uint16_t*)buffer = (uint16_t)len; buffer[2] = KINDS[digit]; buffer[3] = SCRIPT_DTYPE(digit);
   for (uint32_t i = 0; i < PAYLOAD_MAX; i++) if (i < (uint32_t)PAYLEN[digit]) buffer[4 + i] = script_payload(digit, script_pos - 1, i);
   *buffer_count = len; return 0;
 }
@@ -23,7 +26,7 @@ uint32_t _ZN5gdstk17gdsii_read_recordEP8_IO_FILEPhRm(VF* in, uint8_t* buffer, ui
 static void script_build_file(void) {
   int K = script_len(); uint64_t p = 0;
   for (int k = 0; k < K; k++) { int digit = (SCRIPT / P10[K - 1 - k]) % 10; uint32_t len = 4 + (uint32_t)PAYLEN[digit];
-    vf_files[0].data[p++] = (uint8_t)(len >> 8); vf_files[0].data[p++] = (uint8_t)len; vf_files[0].data[p++] = KINDS[digit]; vf_files[0].data[p++] = nd_u8();
+    vf_files[0].data[p++] = (uint8_t)(len >> 8); vf_files[0].data[p++] = (uint8_t)len; vf_files[0].data[p++] = KINDS[digit]; vf_files[0].data[p++] = SCRIPT_DTYPE(digit);
     for (uint32_t i = 0; i < (uint32_t)PAYLEN[digit]; i++) vf_files[0].data[p++] = script_payload(digit, k, i); }
   { int extra = (int)nd_range(0, 3); for (int i = 0; i < extra; i++) vf_files[0].data[p++] = 0; }      /* a few bytes of the record that was cut */
   vf_files[0].len = p; script_calls = K + 1;
